@@ -18,7 +18,8 @@ func init() {
 			"(X) 1xx interim statuses neither latch the writer nor skip the strip for the final header; " +
 			"(A) the session cookie literal has HttpOnly=true, Path=/, Secure=!testOverride, Expires=now+configured lifetime, the configured name and a fresh UUID value; " +
 			"(R) the session cookie is dropped from the forwarded request (string-equality truth table), other client cookies are kept, the jar consulted and the jar stored into are the caller's own session's, the cookie URL is the request's own. " +
-			"Not decided: cookiejar matching rules, LRU eviction order, expiry arithmetic.",
+			"Not decided: cookiejar matching rules, LRU eviction order, expiry arithmetic. " +
+			"The shim's open endpoint restores r.URL from the body before it delegates to the handler wrapped by the session wrapper, so path-scoped cookies are looked up for the websocket's real URL.",
 		Assumptions: []string{"net/http/cookiejar implements RFC 6265 matching", "groupcache lru evicts least-recently-used entries"},
 		Run:         runC10,
 	})
